@@ -226,6 +226,10 @@ func main() {
 		props[p] = true
 	}
 	switch os.Args[1] {
+	case "graph":
+		n, _ := strconv.Atoi(os.Args[3])
+		graphSearch(n, os.Args[4:])
+		return
 	case "replay":
 		var prog program
 		for _, p := range programs {
@@ -294,5 +298,198 @@ func main() {
 		if len(fails) > 0 {
 			os.Exit(1)
 		}
+	}
+}
+
+// ---- C03: all dependency graphs over n tasks (every subset of directed edges incl. self loops,
+// plus one undefined dependency) x request lists; repeated so that map iteration order varies.
+
+func graphOracle(n int, edges [][2]int, undefinedDep int, req []int, reps int) string {
+	var b strings.Builder
+	names := []string{"ta", "tb", "tc", "td", "te"}
+	deps := map[int][]int{}
+	for _, e := range edges {
+		deps[e[1]] = append(deps[e[1]], e[0]) // e[0] must run before e[1]
+	}
+	for i := 0; i < n; i++ {
+		var ds []string
+		for _, d := range deps[i] {
+			ds = append(ds, names[d])
+		}
+		if undefinedDep == i {
+			ds = append(ds, "nosuch")
+		}
+		fmt.Fprintf(&b, "task %s(%s) {\n echo %s\n}\n", names[i], strings.Join(ds, ", "), names[i])
+	}
+	text := b.String()
+	// closure + cyclicity of the requested closure
+	in := map[int]bool{}
+	var stack []int
+	for _, r := range req {
+		if !in[r] {
+			in[r] = true
+			stack = append(stack, r)
+		}
+	}
+	undefinedHit := false
+	for len(stack) > 0 {
+		v := stack[len(stack)-1]
+		stack = stack[:len(stack)-1]
+		if undefinedDep == v {
+			undefinedHit = true
+		}
+		for _, d := range deps[v] {
+			if !in[d] {
+				in[d] = true
+				stack = append(stack, d)
+			}
+		}
+	}
+	// cycle detection inside closure
+	state := map[int]int{}
+	cyclic := false
+	var dfs func(v int)
+	dfs = func(v int) {
+		state[v] = 1
+		for _, d := range deps[v] {
+			if !in[d] {
+				continue
+			}
+			if state[d] == 1 {
+				cyclic = true
+			} else if state[d] == 0 {
+				dfs(d)
+			}
+		}
+		state[v] = 2
+	}
+	for v := range in {
+		if state[v] == 0 {
+			dfs(v)
+		}
+	}
+	for rep := 0; rep < reps; rep++ {
+		dir, _ := os.MkdirTemp("", "graphprobe-")
+		tree, err := parser.New(text).Parse()
+		if err != nil {
+			os.RemoveAll(dir)
+			return "spokfile does not parse: " + err.Error()
+		}
+		sf, err := file.New(tree, dir, nopLogger{})
+		if err != nil {
+			os.RemoveAll(dir)
+			return "file.New: " + err.Error()
+		}
+		rr := &recRunner{failing: map[string]bool{}}
+		var rq []string
+		for _, r := range req {
+			rq = append(rq, names[r])
+		}
+		results, err := sf.Run(iostream.Null(), rr, false, rq...)
+		os.RemoveAll(dir)
+		if undefinedHit || cyclic {
+			if err == nil {
+				return fmt.Sprintf("C03: closure is %s but Run returned no error (ran %v)", map[bool]string{true: "cyclic", false: "referring to an undefined task"}[cyclic], rr.trace)
+			}
+			if len(rr.trace) != 0 {
+				return fmt.Sprintf("C03: error reported but tasks ran: %v", rr.trace)
+			}
+			continue
+		}
+		if err != nil {
+			return "C03: unexpected error: " + err.Error()
+		}
+		pos := map[string]int{}
+		for i, t := range rr.trace {
+			if _, dup := pos[t]; dup {
+				return fmt.Sprintf("C03: task %s ran twice: %v", t, rr.trace)
+			}
+			pos[t] = i
+		}
+		if len(results) != len(rr.trace) {
+			return fmt.Sprintf("C03: %d results but %d executions", len(results), len(rr.trace))
+		}
+		for v := range in {
+			if _, ok := pos[names[v]]; !ok {
+				return fmt.Sprintf("C03: task %s is requested or depended upon but did not run: %v", names[v], rr.trace)
+			}
+			for _, d := range deps[v] {
+				if pos[names[d]] > pos[names[v]] {
+					return fmt.Sprintf("C03: task %s ran before its dependency %s: %v", names[v], names[d], rr.trace)
+				}
+			}
+		}
+		if len(pos) != len(in) {
+			return fmt.Sprintf("C03: tasks outside the requested closure ran: %v", rr.trace)
+		}
+	}
+	return ""
+}
+
+func graphSearch(n int, extra []string) {
+	reps := 3
+	var pairs [][2]int
+	for a := 0; a < n; a++ {
+		for b := 0; b < n; b++ {
+			pairs = append(pairs, [2]int{a, b})
+		}
+	}
+	type job struct {
+		edges [][2]int
+		undef int
+		req   []int
+	}
+	jobs := make(chan job, 256)
+	var mu sync.Mutex
+	var fails []string
+	total := 0
+	var wg sync.WaitGroup
+	for i := 0; i < runtime.NumCPU(); i++ {
+		wg.Add(1)
+		go func() {
+			defer wg.Done()
+			for j := range jobs {
+				msg := graphOracle(n, j.edges, j.undef, j.req, reps)
+				mu.Lock()
+				total++
+				if msg != "" && len(fails) < 3 {
+					fails = append(fails, fmt.Sprintf("n=%d edges=%v undefinedDepOf=%d request=%v :: %s", n, j.edges, j.undef, j.req, msg))
+				}
+				mu.Unlock()
+			}
+		}()
+	}
+	var reqs [][]int
+	for m := 1; m < 1<<n; m++ {
+		var r []int
+		for v := 0; v < n; v++ {
+			if m&(1<<v) != 0 {
+				r = append(r, v)
+			}
+		}
+		reqs = append(reqs, r)
+	}
+	for m := 0; m < 1<<len(pairs); m++ {
+		var es [][2]int
+		for k, p := range pairs {
+			if m&(1<<k) != 0 {
+				es = append(es, p)
+			}
+		}
+		for _, r := range reqs {
+			jobs <- job{es, -1, r}
+		}
+		if m%7 == 0 {
+			jobs <- job{es, m % n, reqs[len(reqs)-1]}
+		}
+	}
+	close(jobs)
+	wg.Wait()
+	fmt.Printf("SEARCH props=C03 graphs-over=%d-tasks cases=%d failures=%d\n", n, total, len(fails))
+	for _, f := range fails {
+		fmt.Println("FAILING-HISTORY", f)
+	}
+	if len(fails) > 0 {
+		os.Exit(1)
 	}
 }
